@@ -89,10 +89,7 @@ let impl_view (w : world) : string =
 let orefa_istep (w : world) (o : fop) : world * sres =
   let (w', r) = orefa_step w o in (w', fproj_res r)
 
-let show_ofinding = function OKf k -> show_finding k | OKfRenameKeepsLinkCount -> "OKfRenameKeepsLinkCount"
-  | OKfRenameHardLinkAlias -> "OKfRenameHardLinkAlias"
-  | OKfPathTruncatePriority -> "OKfPathTruncatePriority"
-  | OKfRenameSameNameMissing -> "OKfRenameSameNameMissing"
+let show_ofinding = show_finding
 
 let umask = 18
 
